@@ -354,6 +354,54 @@ func TestVerifC06Stress(t *testing.T) {
 		}(g)
 	}
 	wg.Wait()
+	// (g) traced requests (a request carrying the trace key makes Lookup log its decisions): the only shared effect
+	// of a lookup is the turn of the ring that SERVES it - a traced request for a host-specific route must not
+	// take turns of the rings of less specific routes which match as well
+	tt, err := newTableFromText("route add s1 s.com/ http://s1:80/\nroute add s2 s.com/ http://s2:80/\n" +
+		"route add f1 / http://f1:80/\nroute add f2 / http://f2:80/\nroute add f3 / http://f3:80/")
+	if err != nil {
+		t.Fatal(err)
+	}
+	var fcount [3]int64
+	var scount [2]int64
+	const perG = 300 // multiple of 2 and 3
+	for g := 0; g < G; g++ {
+		wg.Add(1)
+		go func(g int) {
+			defer wg.Done()
+			defer c06Guard()
+			gct := NewGlobCache(8)
+			for i := 0; i < perG; i++ {
+				// a traced request served by the host-specific route ...
+				if tg := tt.Lookup(c06Req("s.com", "/"), fmt.Sprintf("trace-%d-%d", g, i), rrPicker, prefixMatcher, gct, false); tg != nil && len(tg.Service) == 2 && tg.Service[0] == 's' {
+					atomic.AddInt64(&scount[tg.Service[1]-'1'], 1)
+				} else {
+					verifx.Fail(map[string]any{"g": g}, map[string]any{"sub": "stress", "clause": "traced-lookup"}, "traced request for s.com/ answered by %v", tg)
+				}
+				// ... and an untraced one served by the fallback route
+				if tg := tt.Lookup(c06Req("other.com", "/"), "", rrPicker, prefixMatcher, gct, false); tg != nil && len(tg.Service) == 2 && tg.Service[0] == 'f' {
+					atomic.AddInt64(&fcount[tg.Service[1]-'1'], 1)
+				} else {
+					verifx.Fail(map[string]any{"g": g}, map[string]any{"sub": "stress", "clause": "traced-lookup"}, "request for other.com/ answered by %v", tg)
+				}
+			}
+		}(g)
+	}
+	wg.Wait()
+	for k, n := range fcount {
+		if n != int64(G*perG/3) {
+			verifx.Fail(map[string]any{"counts": fcount}, map[string]any{"sub": "stress", "clause": "traced-share"},
+				"fallback route: target f%d served %d of %d lookups (shares %v) while traced requests for a host-specific route ran; its share is a third", k+1, n, G*perG, fcount)
+			break
+		}
+	}
+	for k, n := range scount {
+		if n != int64(G*perG/2) {
+			verifx.Fail(map[string]any{"counts": scount}, map[string]any{"sub": "stress", "clause": "traced-share"},
+				"host-specific route: target s%d served %d of %d traced lookups (shares %v); its share is a half", k+1, n, G*perG, scount)
+			break
+		}
+	}
 	// (f) every matcher (proxy.matcher = prefix | iprefix | glob): the route a request's path selects depends on
 	// that path alone, whatever paths other requests are being matched against at the same moment
 	var ml []string
